@@ -39,11 +39,13 @@ EXHAUSTIVE = {"quick": False, "thorough": False}
 TRUSTED = ["libc dup2-based stdout silencing in the harness (the crate println!s on a failed final step)",
            "the guarded hook log4rs::verif_hooks::set_rotate_step (called before each shift and before the final "
            "move/compress; returning Err makes rotate() return that error at this point)"]
-STATS = {"images": 0, "faults_hit": 0, "crash_images": 0, "real_eisdir_failures": 0, "oracle_states": 0,
+STATS = {"efbig_appends": 0, "damaged_archives_seen": 0, "slotdir_failures": 0, "images": 0, "faults_hit": 0, "crash_images": 0, "real_eisdir_failures": 0, "oracle_states": 0,
          "rotations_completed": 0}
 
-PATTERNS = ["a.{}.log", "arch/a.{}.log", "{}/a.log"]
-GZ_PATTERNS = ["z/a.{}.gz", "a.{}.gz"]
+PATTERNS = ["a.{}.log", "arch/a.{}.log", "{}/a.log", "arch/{}/a.log"]
+GZ_PATTERNS = ["z/a.{}.gz", "a.{}.gz", "z/{}/a.gz"]
+DIR_PATTERNS = ["arch/{}/a.log", "{}/a.log"]          # {} in a directory component
+DIR_GZ_PATTERNS = ["z/{}/a.gz"]
 
 
 def name_of(pattern, i):
@@ -63,6 +65,7 @@ class Sim:
         self.c, self.limit, self.pre = c, limit, pre
         self.len = init_len if mode0 else 0
         self.obst = False
+        self.dobst = False     # a slot directory cannot be created: every rotation is blocked
         self.done = 0          # completed rotations
         self.attempts = 0
         self.lowfull = 0       # number of archives present counted from base (no pre-existing archives)
@@ -76,7 +79,7 @@ class Sim:
         if fires:
             self.attempts += 1
             blocked = self.obst and (self.c == 1 or self.lowfull >= self.c - 1)
-            ok = not blocked and not (fault is not None and fault < self.c)
+            ok = not blocked and not self.dobst and not (fault is not None and fault < self.c)
             if ok:
                 self.len = 0
                 self.done += 1
@@ -114,8 +117,13 @@ def rotation_ops(c, limit, pre, mode0, recs, init_len=0):
 
 
 def enumerated(tier):
+    """every step k of each of the first 4 rotations.  thorough: fault, crash+append-mode restart,
+    crash+truncate-mode restart at every point of both base histories.  quick: the fault at every
+    point of both histories; the crash continuations at every point of the limit-0 history with the
+    restart mode alternating, and at the last rotation of the limit-9 history"""
     out = []
     combo = 0
+    quick = tier == "quick"
     for c in (1, 2, 3, 4):
         for pre in (0, 1):
             for mode0 in (1, 0):
@@ -136,16 +144,24 @@ def enumerated(tier):
                         for j, opi in enumerate(rots):
                             assert len(recs) - opi - 1 >= 3, (c, pre, limit, rots)
                             for k in range(c):
-                                for kind in ([1, k], [2, k, 1], [2, k, 0]):
+                                kinds = [[1, k], [2, k, 1], [2, k, 0]]
+                                if quick:
+                                    alt = [2, k, (j + k + combo) % 2]
+                                    if limit == 0:
+                                        kinds = [[1, k], alt]
+                                    else:
+                                        kinds = [[1, k]] + ([alt] if j == len(rots) - 1 else [])
+                                for kind in kinds:
                                     ops = [[0, r, [0]] for r in recs]
                                     ops[opi] = [0, recs[opi], list(kind)]
                                     out.append(mk(b, c, limit, pre, gz, pattern, file, mode0, 0, init, ops))
     return out
 
 
-def obstacle_cases():
+def obstacle_cases(tier):
     out = []
     combo = 0
+    quick = tier == "quick"
     for c in (1, 2, 3, 4):
         for pre in (0, 1):
             for mode0 in (1, 0):
@@ -154,6 +170,8 @@ def obstacle_cases():
                         for nbefore in range(0, c):          # completed rotations before the obstacle appears
                             for nfail in (1, 3):
                                 combo += 1
+                                if quick and (nfail == 3) == bool(nohook):
+                                    continue
                                 b = (0, 1, 7)[combo % 3]
                                 pats = GZ_PATTERNS if gz else PATTERNS
                                 pattern = pats[combo % len(pats)]
@@ -189,6 +207,108 @@ def obstacle_cases():
                                     i += 1
                                 out.append(mk(b, c, limit, pre, gz, pattern, file, mode0, nohook,
                                               bystanders(pattern, file), ops))
+    return out
+
+
+def dirobst_cases(tier):
+    """the directory of one archive slot cannot be created (index in a directory component of the
+    pattern): dangling symlink / regular file at the slot directory's name, placed when `nbefore`
+    rotations have completed (slots base..base+nbefore-1 filled), slot j >= nbefore vacant"""
+    out = []
+    combo = 0
+    quick = tier == "quick"
+    for c in (1, 2, 3, 4):
+        for j in range(0, c):
+            for nbefore in sorted(set([j, max(0, j - 1)])):
+                for pre in (0, 1):
+                    for mode0 in (1, 0):
+                        for gz in (0, 1):
+                            for kind in (0, 1):
+                                combo += 1
+                                if quick and nbefore != j and (combo % 2):
+                                    continue
+                                b = (0, 1, 7)[combo % 3]
+                                pats = DIR_GZ_PATTERNS if gz else DIR_PATTERNS
+                                pattern = pats[combo % len(pats)]
+                                file = "app.log" if combo % 2 else "logs/cur.log"
+                                nohook = 1 if combo % 5 == 0 else 0
+                                limit = 0
+                                ops = []
+                                sim = Sim(c, limit, pre, mode0, 0)
+                                i = 0
+                                while sim.done < nbefore:
+                                    r = rec(i, 5)
+                                    sim.append(len(r), None)
+                                    ops.append([0, r, [0]])
+                                    i += 1
+                                ops.append([4, kind, j])
+                                sim.dobst = True
+                                failed = 0
+                                nfail = 1 + combo % 3
+                                guard = 0
+                                while failed < nfail and guard < 8:
+                                    r = rec(i, 5)
+                                    fires, ok = sim.append(len(r), None)
+                                    ops.append([0, r, [0]])
+                                    i += 1
+                                    guard += 1
+                                    if fires and not ok:
+                                        failed += 1
+                                ops.append([5])
+                                sim.dobst = False
+                                for _ in range(4):
+                                    r = rec(i, 5)
+                                    sim.append(len(r), None)
+                                    ops.append([0, r, [0]])
+                                    i += 1
+                                out.append(mk(b, c, limit, pre, gz, pattern, file, mode0, nohook,
+                                              bystanders(pattern, file), ops))
+    return out
+
+
+def rnd_rec(rng, i, n):
+    """record i with n incompressible payload bytes"""
+    return b"<%d>" % i + bytes(rng.below(256) for _ in range(n)) + b";"
+
+
+def fsize_cases(rng, tier):
+    """EXPLORATION (outside the Coq model): an OS write error (EFBIG under RLIMIT_FSIZE, the moral
+    equivalent of a full disk) while the gzip archive of a rotation is written.  The limit is the size
+    the active file has when the rotation starts, so the active file fits and its archive (gzip of
+    incompressible records is larger than its input) does not"""
+    out = []
+    n = 48 if tier == "quick" else 600
+    for t in range(n):
+        c = 1 + t % 3
+        pre = (t // 3) % 2
+        mode0 = 1 if t % 5 else 0
+        b = (0, 1, 7)[t % 3]
+        pattern = GZ_PATTERNS[t % len(GZ_PATTERNS)]
+        file = "app.log" if t % 2 else "logs/cur.log"
+        per = rng.range(2, 4)                   # records per chunk
+        size = rng.choice([24, 40, 64, 120])
+        limit = per * (size + 6) - 10
+        nrec = per * 5 + 3
+        recs = [rnd_rec(rng, i, size) for i in range(nrec)]
+        target = rng.below(3)                   # which rotation meets the full disk
+        sim = Sim(c, limit, pre, mode0, 0)
+        ops = []
+        seen = 0
+        for r in recs:
+            before = sim.len
+            shown = before if pre else before + len(r)
+            if shown > limit and seen == target:
+                ops.append([0, r, [3, shown]])
+                seen += 1
+                # the rotation fails: model the bookkeeping by hand
+                if not pre:
+                    sim.len += len(r)
+                continue
+            fires, ok = sim.append(len(r), None)
+            if fires:
+                seen += 1
+            ops.append([0, r, [0]])
+        out.append(mk(b, c, limit, pre, 1, pattern, file, mode0, 0, bystanders(pattern, file), ops))
     return out
 
 
@@ -283,8 +403,8 @@ def corpus():
 
 
 def cases(rng, tier):
-    out = enumerated(tier) + obstacle_cases()
-    n_rand = 700 if tier == "quick" else 30000
+    out = enumerated(tier) + obstacle_cases(tier) + dirobst_cases(tier) + fsize_cases(rng, tier)
+    n_rand = 400 if tier == "quick" else 30000
     for _ in range(n_rand):
         out.append(random_case(rng))
     return out
@@ -320,9 +440,19 @@ def compare(case, impl, model):
         return "malformed result"
     if len(ci) != len(ops) + 1 or len(cm) != len(ops) + 1:
         return "wrong number of entries: impl %d model %d ops %d" % (len(ci), len(cm), len(ops))
-    d = direct_oracle(case, ci)
+    explore = is_exploration(case)
+    d = direct_oracle(case, ci, explore)
     if d:
         return d
+    if explore:
+        # OS write error half-way through a step: outside the model, direct oracle only
+        for i, o in enumerate(ops):
+            if o[0] == 0 and o[2][0] == 3:
+                STATS["efbig_appends"] += 1
+                if ci[i + 1][0] != 1:
+                    return ("op %d %s: the archive cannot fit under the file-size limit, yet the append "
+                            "returned Ok" % (i, _opd(o)))
+        return None
     for i, (a, m) in enumerate(zip(ci, cm)):
         what = "initial build" if i == 0 else "op %d %s" % (i - 1, _opd(ops[i - 1]))
         if a[0] != m[0]:
@@ -335,6 +465,10 @@ def compare(case, impl, model):
         if a[2] != m[2]:
             return "%s: directory after the op differs: %s" % (what, _diff_dirs(a[2], m[2]))
     return None
+
+
+def is_exploration(case):
+    return any(o[0] == 0 and o[2][0] == 3 for o in case[10])
 
 
 def _parse_file(content, recs):
@@ -360,7 +494,7 @@ def _parse_file(content, recs):
 
 def _read(listing, ctxo, recs):
     """(ids per managed file oldest..newest incl. active last, ids of top archive, ids of active) or error str"""
-    slot_paths, pre_plain, gz, filep = ctxo
+    slot_paths, pre_plain, gz, filep, tolerant = ctxo
     d = dict(listing)
     files = []
     top_ids = []
@@ -369,9 +503,16 @@ def _read(listing, ctxo, recs):
             content = d[p]
             if gz and content[:2] == b"\x1f\x8b":      # (a pre-existing archive may be plain text)
                 content = content[2:]
-            elif gz and not pre_plain:
+            elif gz and not pre_plain and not tolerant:
                 return "archive %s is not a complete gzip stream: %r" % (p.decode(), content)
             ids = _parse_file(content, recs)
+            if ids is None and tolerant:
+                # a damaged archive (the failed compress step leaves a truncated gzip stream behind):
+                # it counts for nothing; what it should have held must be intact elsewhere
+                STATS["damaged_archives_seen"] += 1
+                if n == 0:
+                    top_ids = []
+                continue
             if ids is None:
                 return "archive %s does not consist of whole records: %r" % (p.decode(), content)
             files.append(ids)
@@ -386,7 +527,7 @@ def _read(listing, ctxo, recs):
     return files, top_ids, act
 
 
-def direct_oracle(case, ci):
+def direct_oracle(case, ci, tolerant=False):
     b, c, limit, pre, gz, pattern, file, mode0, nohook, init, ops = case
     # record table: initial managed contents first (oldest = highest index), then appended records
     recs = {}
@@ -395,7 +536,7 @@ def direct_oracle(case, ci):
     slot_paths = [name_of(pattern, i).encode() for i in range(b + c - 1, b - 1, -1)]
     # pre-existing archives are plain text; they stay plain while they move up the window
     pre_plain = any((p if isinstance(p, str) else p.decode()) in names for p, _ in init)
-    ctxo = (slot_paths, pre_plain, gz, file.encode())
+    ctxo = (slot_paths, pre_plain, gz, file.encode(), tolerant)
     cache = {}
 
     def tag(content):
@@ -462,15 +603,21 @@ def _opd(o):
             return "append %r" % bytes(o[1])
         if k[0] == 1:
             return "append %r with Err at hook call %d" % (bytes(o[1]), k[1])
+        if k[0] == 3:
+            return "append of %d bytes under RLIMIT_FSIZE=%d" % (len(o[1]), k[1])
         return "append %r dying at hook call %d, fresh appender(append=%s)" % (bytes(o[1]), k[1], bool(k[2]))
     if o[0] == 1:
         return "restart(append=%s)" % bool(o[1])
+    if o[0] == 4:
+        return "slot %d's directory becomes a %s" % (o[2], "dangling symlink" if o[1] == 0 else "regular file")
+    if o[0] == 5:
+        return "slot directory obstacle removed"
     return "obstacle on" if o[0] == 2 else "obstacle off"
 
 
 def nontrivial(c):
     ops = c[10]
-    return any((o[0] == 0 and o[2][0] != 0) or o[0] == 2 for o in ops)
+    return any((o[0] == 0 and o[2][0] != 0) or o[0] in (2, 4) for o in ops)
 
 
 def classify(c):
@@ -481,8 +628,12 @@ def classify(c):
             kinds.add("fault")
         if o[0] == 0 and o[2][0] == 2:
             kinds.add("crash")
+        if o[0] == 0 and o[2][0] == 3:
+            kinds.add("efbig(exploration)")
         if o[0] == 2:
             kinds.add("eisdir" + ("-nohook" if nohook else ""))
+        if o[0] == 4:
+            kinds.add("slotdir-" + ("symlink" if o[1] == 0 else "file") + ("-nohook" if nohook else ""))
     return "count=%d %s %s%s %s" % (cnt, "pre" if pre else "post", "append" if mode0 else "truncate",
                                     " gz" if gz else "", "+".join(sorted(kinds)) or "plain")
 
@@ -525,8 +676,14 @@ def extra_checks(ctx, cases, impl_lines, model_lines):
         if not isinstance(iv, list):
             continue
         ops = case[10]
+        dob = False
         for i, ent in enumerate(iv[1:]):
             o = ops[i]
+            if o[0] in (4, 5):
+                dob = o[0] == 4
+            if dob and o[0] == 0 and ent[0] == 1:
+                STATS["slotdir_failures"] += 1
+                continue
             STATS["images"] += len(ent[1])
             if o[0] == 0 and ent[0] == 0 and len(ent[1]) == case[1] and not case[8]:
                 STATS["rotations_completed"] += 1
